@@ -119,6 +119,24 @@ CHECKS: dict[str, tuple[str, str, str, str, str]] = {
         "TLA+ denotational spec with function-call semantics (PtSem) evaluated by TLC on "
         "directly applied / traced / inlined graphs exported from the real code",
         "DESIGN.md section 4 C12"),
+    "C14": (
+        "exploration",
+        "Seeded random DAG programs and systematic single operations (static shapes, no sparse "
+        "matmul / loopy calls) go through the real generate_numpy_like with a harness-side "
+        "NumpyLikePythonTarget for real NumPy; the generated function is executed on 2-3 input "
+        "valuations and every output compared with the NumPy mirror (shape, values exactly or "
+        "within a scale-aware tolerance); the generated signature must take only the user's "
+        "inputs and pre-bind the very objects that were wrapped; inputs must not be written; a "
+        "refusal must be a not-supported error at generation, never AttributeError / NameError "
+        "/ TypeError at run time. For index nodes the slice text in the generated source is "
+        "extracted and TLC (PtCheck rel sliceeq over PtCore's CPython slice semantics) decides "
+        "that it selects the same elements as the user's index, over the C02 slice scope.",
+        "Floating-point values are sampled; real NumPy stands in for jax.numpy (absent here). "
+        "Trusted: NumPy, TLC for the slice relation.",
+        "differential execution of generated Python code against NumPy over generated programs "
+        "+ TLC validation of the re-synthesised slice text against the CPython slice semantics "
+        "in PtCore",
+        "DESIGN.md section 4 C14"),
     "C19": (
         "model_checking",
         "Every index lambda the public API creates for the raisable operations (both operand "
